@@ -1783,10 +1783,13 @@ class SpaceUpdater(SharedSpaceOperations):
             nodes_removed.append(child)
             self._remove_hook(self._graph, child)
 
-        for _, v in nx.edge_bfs(self.manager._graph, node):
-            self._instructions.append(
-                Instruction(self._update_derived_space, (v,))
-            )
+        # Re-derive the sub spaces of the removed spaces,
+        # except for those removed themselves
+        for _, v in nx.edge_bfs(self.manager._graph, nodes_removed):
+            if v not in nodes_removed:
+                self._instructions.append(
+                    Instruction(self._update_derived_space, (v,))
+                )
 
         self._graph.remove_nodes_from(nodes_removed)
 
